@@ -113,6 +113,14 @@ def main():
               "  wrong beyond 64 output bytes) is reached by the new q > 384-bit pool groups; C05-r5A/B (hex text of an",
               "  element accepted; finish() collapsing a latin-1->UTF-8 expanded message) -> *text-form* faults (hex,",
               "  HEX, base64, latin-1 read back as UTF-8, of the element or of the whole message) in C05 and C02.",
+              "* round 6 (`*-r6A/B`, red team told the round-5 additions as well): C09-r6A (fingerprint checked against the",
+              "  `params` argument instead of the instance's own) -> restores through an application subclass that pins",
+              "  its own parameter set; C09-r6B (memoised empty-password scalar no longer reflects the group's own",
+              "  password mapping) -> a parameter variant whose group CLASS overrides password_to_scalar (same p, q, g,",
+              "  seeds); C11-r6A (`entropy_f or os.urandom`) -> entropy objects that are callable but falsy; C11-r6B",
+              "  (reads capped at 256 bytes, the block repeated) -> widths of 2^2048..2^8200 and the necessary condition",
+              "  that a draw requests at least log2(width)/8 bytes (`insufficient-entropy`). The C01 and C16 red-team",
+              "  agents of rounds 5/6 ended without output (tool limits) and contributed nothing.",
               "* round-3 change C07-r3A (`_started` set only when start() succeeds, so a start() after a start() whose",
               "  entropy function raised returns the one and only message) was **not kept**: the statement bounds the",
               "  number of messages returned (at most one) and fixes the error only for calls after a message was",
